@@ -280,14 +280,15 @@ Proof.
 Qed.
 
 (* ------------------------------------------------------------------ C04: exact undo of a replace-around step *)
-Theorem around_step_undo from to gf gt sl ins structure doc d' inv d'' :
-  V doc -> V d' -> ShapeS sl -> from <= gf -> gf <= gt -> gt <= to -> ins <= length (IT sl) ->
+Theorem around_step_undo_on from to gf gt sl ins structure doc d' inv e d'' :
+  V doc -> ShapeS sl -> from <= gf -> gf <= gt -> gt <= to -> ins <= length (IT sl) ->
   apply s (SReplaceAround from to gf gt sl ins structure) doc = ROk d' ->
   invert_step s (SReplaceAround from to gf gt sl ins structure) doc = Ok inv ->
-  apply s inv d' = ROk d'' ->
+  V e -> DT e = DT d' ->
+  apply s inv e = ROk d'' ->
   DT d'' = DT doc.
 Proof.
-  intros Hd Hd' Hs H1 H2 H3 Hins Ha Hi Hb.
+  intros Hd Hs H1 H2 H3 Hins Ha Hi Hd' HeT Hb.
   destruct (replace_around_splice s _ _ _ _ _ _ _ _ _ Hd Hs H2 Hins Ha) as (Bf & Bt & E').
   cbn [invert_step] in Hi. destruct (node_slice s doc from to) as [old|] eqn:Eo; [|discriminate]. cbn [bind] in Hi.
   destruct (remove_between s old (gf - from) (gt - from)) as [rem|] eqn:Erm; [|discriminate]. cbn [bind] in Hi.
@@ -319,7 +320,7 @@ Proof.
   assert (Hg' : from + ins <= from + ins + (gt - gf)) by lia.
   destruct (replace_around_splice s _ _ _ _ _ _ _ _ _ Hd' Hsr Hg' Hins' Hb) as (_ & _ & E'').
   replace (Z.to_nat (Z.of_nat from + slice_size s sl + Z.of_nat (gt - gf))) with (from + length (IT sl) + (gt - gf)) in E'' by lia.
-  rewrite E'', E', Erem, ET.
+  rewrite E'', HeT, E', Erem, ET.
   rewrite (firstn_exact P) by lia. rewrite (firstn_exact D1) by lia. rewrite (skipn_exact D1) by lia.
   assert (EG' : seg (P ++ I1 ++ G ++ I2 ++ S) (from + ins) (from + ins + (gt - gf)) = G).
   { unfold seg. rewrite app_assoc, (skipn_exact (P ++ I1)) by (rewrite app_length; lia). apply firstn_exact. lia. }
@@ -327,6 +328,17 @@ Proof.
   { replace (P ++ I1 ++ G ++ I2 ++ S) with ((P ++ I1 ++ G ++ I2) ++ S) by (rewrite <- !app_assoc; reflexivity).
     apply skipn_exact. rewrite !app_length. lia. }
   rewrite EG', ES'. reflexivity.
+Qed.
+
+Theorem around_step_undo from to gf gt sl ins structure doc d' inv d'' :
+  V doc -> V d' -> ShapeS sl -> from <= gf -> gf <= gt -> gt <= to -> ins <= length (IT sl) ->
+  apply s (SReplaceAround from to gf gt sl ins structure) doc = ROk d' ->
+  invert_step s (SReplaceAround from to gf gt sl ins structure) doc = Ok inv ->
+  apply s inv d' = ROk d'' ->
+  DT d'' = DT doc.
+Proof.
+  intros Hd Hd' Hs H1 H2 H3 Hins Ha Hi Hb.
+  exact (around_step_undo_on _ _ _ _ _ _ _ _ _ _ d' _ Hd Hs H1 H2 H3 Hins Ha Hi Hd' eq_refl Hb).
 Qed.
 
 (* the size of the slice cut out of a document is the width of the range *)
